@@ -5,15 +5,18 @@ import shutil
 
 import apel
 import clirun
+import toprun
 import common
 import jsonio
 from common import Check, lean_batch
 
-TRUSTED = ['Lean 4.33.0 kernel (+ leanchecker in the thorough tier)',
+TRUSTED = ['harness/toprun.py (worlds materialised as real trees, the real peltool.main() run end to end in-process with nothing replaced, recursive snapshots, comparison with the driver op runmain = Pel.runMain of PelModel/Top.lean)',
+           'Lean 4.33.0 kernel (+ leanchecker in the thorough tier)',
            'axioms: propext, Classical.choice, Quot.sound only (audited per theorem)',
            'harness/c10.py + clirun.py + apel.py (directory generator, in-process CLI runs, comparison), Drv.lean protocol parsing',
            'compiled driver peldrv agrees with the kernel reading of the same definitions']
-ASSUME = ['os.walk order is a parameter of the model (taken from the real directory) for --id / --bmc-id',
+ASSUME = ['whole-command model: -o names the -p directory iff absent/empty or the same string; the -f file is not a top-level file of the -p directory; --json is composed in batch form (an output name equal to another input file name is outside the composition)',
+          'os.walk order is a parameter of the model (taken from the real directory) for --id / --bmc-id',
           'directories contain PEL files only (an output .json file in the same directory could also match --id by name)']
 RULE = ('cases = (directory of decodable PELs incl. hidden / non-serviceable ones, look-up): --plid in four spellings (bare, lower case, 0x, 0X) '
         'for ids drawn from {0, 1, 0xF, 0x10, 0x1234, 0x0FFFFFFF, 0x10000000, 0x50000001, 0xFFFFFFFF} and random, present and absent; '
@@ -137,6 +140,8 @@ def run(tier, seed):
                 shutil.rmtree(p, ignore_errors=True)
             elif os.path.exists(p):
                 os.remove(p)
+    # the WHOLE command end to end on real trees vs Pel.runMain (PelModel/Top.lean), and the command-level properties on the real runs
+    toprun.check_top(ck, tier, 'lookup')
     return ck.finish(RULE, TRUSTED, ASSUME)
 
 
